@@ -9,5 +9,6 @@ INVARIANT NoneAfterZeroHeartbeat
 INVARIANT DisconnectStopsPdo
 INVARIANT HbPayloadIsState
 INVARIANT PdoPayloadCurrent
+INVARIANT RestartUsesCurrentId
 VIEW View
 CHECK_DEADLOCK FALSE
